@@ -48,6 +48,15 @@ def swapAccept (eps v : α) : Bool := Cmp.eval swapOp v eps
 
 end verdicts
 
+/-! ### input guards (`ppt.py:147`, `_misc.py:191`, `_misc.py:230`) -/
+
+/-- `assert np.abs(rho - rho.T.conj()).max() <(=) 1e-10` of `is_ppt` / `check_reduction_witness` / `get_negativity` on exactly represented
+entries (Gaussian integers / rationals, where a deviation is either `0` or far above `1e-10`): with the guard present (`guard`, a constant of
+`Generated/Thresholds.lean`) the call is rejected iff some entry differs from the conjugate of its mirror entry; `herm r c` decides
+`ρ[r,c] = conj ρ[c,r]`. -/
+def hermGuardRejects (guard : Bool) (N : Nat) (herm : Nat → Nat → Bool) : Bool :=
+  guard && !((List.range N).all fun r => (List.range N).all fun c => herm r c)
+
 /-! ### guarded closed forms (`eof.py:97-105`, `measure.py:26-27`) -/
 
 /-- the two transcendental functions the closed forms need (`np.sqrt`, `np.log`) -/
